@@ -99,7 +99,7 @@ MUTANTS: list[tuple[str, str, str, str, list[str]]] = [
     ("c11-no-seek", "types/structure.py", "            buf.seek(offset + start)\n", "", ["C11.R1"]),
     ("c11-no-proxify", "types/structure.py", "        self._update()\n\n        # (Re-)proxify all values\n        self._proxify()", "        self._update()", ["C11.R2", "C11.R3"]),
     ("c11-proxy-key", "types/structure.py", "                    union_attr = attr or field._name", "                    union_attr = field._name", ["C11.R4"]),
-    ("c11-setattr-norebuild", "types/structure.py", "        super().__setattr__(attr, value)\n        self._rebuild(attr)", "        super().__setattr__(attr, value)\n        if attr in self.__class__.lookup:\n            self._rebuild(attr)", ["C11.R2"]),
+    ("c11-setattr-norebuild", "types/structure.py", "        if attr in self.__class__.lookup:\n", "        if attr in self.__class__.fields and value is not None:\n", ["C11.R2"]),
     # ---- C10 / C12 / C13
     ("c10-shift-level", "expression.py", "\">>\": 3,", "\">>\": 4,", ["C10.R1"]),
     ("c10-gt", "expression.py", "self.precedence_levels[o1] >= self.precedence_levels[o2]", "self.precedence_levels[o1] > self.precedence_levels[o2]", ["C10.R2"]),
